@@ -779,10 +779,16 @@ def check_down_up(c):
     if any(v / 2 ** lv < max(2, c["min_size"]) for v in n):
         return None   # an axis would be clamped / leaves the quantifier
     dims = c["dims"] or None
-    down, bad, pend1 = _guard("downsample", lambda: apply_op(g, {"op": "downsample", "levels": lv, "dims": c["dims"],
-                                                                 "min_size": c["min_size"], "ac": ac}))
-    if bad:
-        return bad
+    # the same total number of levels may be taken in several separate calls (chains of operations): the fractional
+    # internal size must survive between the calls
+    steps = c.get("split") or [lv]
+    down, pend1 = g, None
+    for k in steps:
+        down, bad, pk = _guard("downsample", lambda: apply_op(down, {"op": "downsample", "levels": k, "dims": c["dims"],
+                                                                     "min_size": c["min_size"], "ac": ac}))
+        if bad:
+            return bad
+        pend1 = pend1 or pk
     up, bad, pend2 = _guard("upsample", lambda: apply_op(down, {"op": "upsample", "levels": lv, "dims": c["dims"],
                                                                 "ac": ac}))
     if bad:
@@ -808,9 +814,13 @@ def gen_down_up(rng: random.Random, tier: str):
     for _ in range(_n(tier, 150, 5000, 1500)):
         d = rng.choice([2, 3])
         spec = gen.grid_spec(rng, d, min_size=4, max_size=70)
-        yield {"grid": spec, "levels": rng.choice([1, 1, 2, 3]), "ac": rng.choice([None, None, True, False]),
+        lv = rng.choice([1, 1, 2, 3])
+        split = None
+        if lv >= 2 and rng.random() < 0.5:
+            split = [1] * lv if rng.random() < 0.5 else [1, lv - 1]
+        yield {"grid": spec, "levels": lv, "ac": rng.choice([None, None, True, False]),
                "dims": rng.choice([[], [], sorted(rng.sample(range(d), rng.randint(1, d)))]),
-               "min_size": rng.choice([1, 1, 2])}
+               "min_size": rng.choice([1, 1, 2]), "split": split}
 
 
 def check_pyramid(c):
